@@ -55,7 +55,7 @@ pub(crate) fn parse(range: Option<&HeaderValue>, len: u64) -> ResolvedRanges {
     let mut ranges: SmallVec<[Range<u64>; 1]> = SmallVec::new();
     for r in bytes.split(',') {
         // Trim OWS = *( SP / HTAB )
-        let r = r.trim_start_matches([' ', '\t']);
+        let r = r.trim_matches([' ', '\t']);
 
         // Parse one of the following.
         // byte-range-spec = first-byte-pos "-" [ last-byte-pos ]
